@@ -24,6 +24,31 @@ CHECKS = {
     technique="CBMC DFCC contracts on extracted fp.hpp functions: full-domain proof of the loop-free paths and of get_mult_inverse against ext_gcd's contract; unwinding-bounded Euclid loop and is_prime; native exhaustive grids incl. cpp_int; native replay of counterexamples",
     text="Proof over all int64 for ext_gcd's zero-argument paths and for get_mult_inverse modulo ext_gcd's contract; bounded (unwinding) for the Euclid loop and is_prime; bounded native enumeration for long and cpp_int incl. SpVecFP histories. Found and repaired: ext_gcd(a<0,0), is_prime(2).",
     note="Machine integers treated as such (arguments > T_MIN); congruence step p*y mod p = 0 and all cpp_int behaviour only checked natively; libm sqrt assumed to be floor sqrt."),
+ "C10": dict(
+    engine="E1+E3", category="other", design_ref="DESIGN.md 4/C10, 3 (K24,K25)",
+    technique="CBMC DFCC contract on the extracted fgets/strip step with fgets/strlen contracts and a ghost index (proof for every 1024-byte buffer) + bounded enforcement of the reader/validator contracts against a grammar enumerator",
+    text="Line normalisation proved for every buffer satisfying the fgets contract (content preserved, only a trailing newline removed). The rest of the reader and the three predicates are a bounded stand-in: every text of a small DIMACS grammar (with/without final newline, comments in every slot, all weight forms, undeclared vertex) and every small multigraph. Found and repaired: last line without newline lost its last character.",
+    note="sscanf/fgets executed from the real libc, not modelled; lines shorter than the buffer only; grammar bounded (n<=4, <=3/4 edge lines)."),
+ "C12": dict(
+    engine="E1+E3", category="other", design_ref="DESIGN.md 4/C12, 3 (K12)",
+    technique="CBMC contracts on the loop-free arithmetic of the label order and closed_plus (proof) + bounded enforcement of the SPTree contract against Floyd-Warshall and path-consistency checks",
+    text="Arithmetic prefix of the label order and closed_plus proved over the full domain; the property statement itself (exact distances, tree, first(), reverse- and sub-path consistency for every ordered pair) is a bounded stand-in on all labelled graphs n<=6, tie-heavy families and seeded random graphs.",
+    note="lex_dijkstra (Boost heap, std::set labels) cannot be parsed by CBMC; exact-domain weights; the set-difference tail of the comparator is checked natively on all equal-size subsets of {0..5}."),
+ "C13": dict(
+    engine="E3", category="exploration", design_ref="DESIGN.md 4/C13, 3 (K13)",
+    technique="bounded enforcement of the greedy_fvs contract (union-find acyclicity oracle) on all labelled graphs n<=6 plus families and seeded graphs; no deductive content (function outside CBMC's reach)",
+    text="Bounded stand-in only: exhaustive over all labelled graphs with at most 6 vertices, plus tie-heavy families and seeded random graphs with pendant trees; nothing is proved.",
+    note="greedy_fvs uses a Boost pairing heap with handles and std::map priorities; neither CBMC route parses it."),
+ "C14": dict(
+    engine="E3", category="exploration", design_ref="DESIGN.md 4/C14, 3 (K14)",
+    technique="bounded enforcement of the collection contracts (soundness of each candidate, nesting, sufficiency by greedy GF(2) selection against the brute-force optimum); no deductive content",
+    text="Bounded stand-in only: all labelled graphs n<=6 (unit + seeded weights), all weightings n<=3/4, tie-heavy families, seeded random graphs.",
+    note="Exact-domain weights only; builders are Boost.Graph templates outside CBMC's reach."),
+ "C16": dict(
+    engine="E1+E3", category="other", design_ref="DESIGN.md 4/C16, 3 (K15,K15a)",
+    technique="CBMC DFCC loop contract with ghost edge on the extracted numbering loop against spanning_forest's contract (proved for m<=16) + bounded enforcement of the whole-class contract with union-find",
+    text="Numbering loop proved (bijection, inverse lookups, off-forest edges numbered first, writes confined to reverse_index[0..m)) for m<=16 - the cap stems from ghost prefix counts, the code's loop is closed by its contract. Whole class and spanning_forest bounded on all labelled graphs n<=6 etc.",
+    note="Assumes spanning_forest's contract inside the proof (enforced only bounded), and the std::map/std::vector/boost::edges bindings of the extraction."),
 }
 
 NOT_APPLICABLE = {p: WIP for p in ["C%02d" % i for i in range(1, 21)] if p not in CHECKS}
